@@ -1826,3 +1826,42 @@ package stackage
 //@ requires edom() && (r == nil || cwf(r)) && okval(o, alloc)
 //@ ensures[C05:Cond.IsEqual] r != nil ==> ((err == nil) == (isCondLike(o) && condOf(o) != nil && ceqS(r, condOf(o))))
 //@ modifies Mem_Val[fresh], Mem_Str[fresh], G_calls_len, G_calls_fn, G_calls_arg
+
+// ---- C18: encapsulation pairs: a string already in use is refused, otherwise the entry is appended
+
+//@ func strInSlice
+//@ tags C18
+//@ safety C18
+//@ requires okslice(slice, alloc)
+//@ ensures[C18:strInSlice] result == inEntry(slice, str, len(slice))
+//@ modifies nothing
+//@ loop 1 invariant 0 <= i && i <= len(slice) && !inEntry(slice, str, i)
+
+//@ func (*nodeConfig).setStringSliceEncapOne
+//@ tags C18
+//@ safety C18
+//@ requires r != nil && okref(r, alloc) && okslice(x, alloc) && len(x) >= 1 && okslice(F_nodeConfig_enc[r], alloc)
+//@ let enc0 := F_nodeConfig_enc[r]
+//@ let s0 := Mem_Str[arr(x)][off(x)]
+//@ let used := inUse(enc0, s0, len(enc0))
+//@ ensures[C18:encap.one.refused] used ==> F_nodeConfig_enc[r] == enc0
+//@ ensures[C18:encap.one.added] !used ==> len(F_nodeConfig_enc[r]) == len(enc0) + 1 && Mem_Slice[arr(F_nodeConfig_enc[r])][off(F_nodeConfig_enc[r]) + len(enc0)] == x
+//@ ensures[C18:encap.one.kept] forall u :: 0 <= u && u < len(enc0) ==> Mem_Slice[arr(F_nodeConfig_enc[r])][off(F_nodeConfig_enc[r]) + u] == old(Mem_Slice[arr(enc0)][off(enc0) + u])
+//@ modifies F_nodeConfig_enc[r], Mem_Slice[arr(F_nodeConfig_enc[r])], Mem_Slice[fresh]
+//@ loop 1 invariant 0 <= u && u <= len(enc0) && F_nodeConfig_enc[r] == enc0 && !found && !inUse(enc0, s0, u)
+
+//@ func (*nodeConfig).setStringSliceEncapTwo
+//@ tags C18
+//@ safety C18
+//@ requires r != nil && okref(r, alloc) && okslice(x, alloc) && len(x) >= 2 && okslice(F_nodeConfig_enc[r], alloc)
+//@ let enc0 := F_nodeConfig_enc[r]
+//@ let n0 := len(enc0)
+//@ let s0 := Mem_Str[arr(x)][off(x)]
+//@ let s1 := Mem_Str[arr(x)][off(x) + 1]
+//@ let used := inUse(enc0, s0, n0) || inUse(enc0, s1, n0)
+//@ ensures[C18:encap.two.refused] used ==> F_nodeConfig_enc[r] == enc0
+//@ ensures[C18:encap.two.added] !used ==> len(F_nodeConfig_enc[r]) == n0 + 1 && Mem_Slice[arr(F_nodeConfig_enc[r])][off(F_nodeConfig_enc[r]) + n0] == x
+//@ ensures[C18:encap.two.kept] forall u :: 0 <= u && u < n0 ==> Mem_Slice[arr(F_nodeConfig_enc[r])][off(F_nodeConfig_enc[r]) + u] == old(Mem_Slice[arr(enc0)][off(enc0) + u])
+//@ modifies F_nodeConfig_enc[r], Mem_Slice[arr(F_nodeConfig_enc[r])], Mem_Slice[fresh]
+//@ loop 1 invariant 0 <= i && i <= 2 && F_nodeConfig_enc[r] == enc0 && (found ==> used) && (!found && i >= 1 ==> !inUse(enc0, s0, n0)) && (!found && i >= 2 ==> !inUse(enc0, s1, n0))
+//@ loop 2 invariant 0 <= u && u <= n0 && 0 <= i && i < 2 && F_nodeConfig_enc[r] == enc0 && (found ==> used) && (!found && i >= 1 ==> !inUse(enc0, s0, n0)) && (!found ==> !inUse(enc0, Mem_Str[arr(x)][off(x) + i], u))
